@@ -251,6 +251,11 @@ const (
 type faultSpec struct {
 	Point string
 	Panic bool
+	// Cancel: nothing fails at the point; instead the context of the requesting stream (the parent of the
+	// task context of every request of the stream: TaskHandler.process derives WithTimeout from it) is
+	// cancelled there - the upstream went away / gave up while the stage was executing - and the storage
+	// call goes on normally.
+	Cancel bool
 	Shard models.ShardID // shard level points
 	Nth   int            // which call of the point fails (family / result set)
 }
@@ -322,8 +327,12 @@ func (r *leafReq) sqlText() string {
 }
 
 func (r *leafReq) canon() string {
-	return fmt.Sprintf("%s|pre=%s|sh=%v|rc=%d|f=%s/%v/%d/%d", r.sqlText(), r.Pre, r.Shards, r.Receivers,
-		r.Fault.Point, r.Fault.Panic, r.Fault.Shard, r.Fault.Nth)
+	c := ""
+	if r.Fault.Cancel {
+		c = "/cancel"
+	}
+	return fmt.Sprintf("%s|pre=%s|sh=%v|rc=%d|f=%s/%v/%d/%d%s", r.sqlText(), r.Pre, r.Shards, r.Receivers,
+		r.Fault.Point, r.Fault.Panic, r.Fault.Shard, r.Fault.Nth, c)
 }
 
 // refKey identifies the fault-free twin of a data request.
@@ -525,6 +534,13 @@ func (st *reqState) hit(point string, shard models.ShardID, canErr bool) error {
 		return nil
 	}
 	st.fired.Add(1)
+	if f.Cancel {
+		// the task context becomes done while this stage executes (cancellation of a cancelCtx parent
+		// reaches its children before cancel returns); the storage call itself succeeds
+		st.run.cancelFired.Store(true)
+		st.run.cancelStream()
+		return nil
+	}
 	if f.Panic || !canErr {
 		panic(fmt.Sprintf("c19: injected panic at %s (request %d)", point, st.idx))
 	}
@@ -806,6 +822,9 @@ type leafRun struct {
 	byID   map[string]*reqState
 	pools  *tsdb.ExecutorPool
 
+	cancelStream context.CancelFunc // cancels the context of the requesting stream
+	cancelFired  atomic.Bool
+
 	mu        sync.Mutex
 	cond      *sync.Cond
 	recvCalls int
@@ -973,6 +992,8 @@ type leafResult struct {
 	fired []int
 	ids   []string
 	late  []string // per request: "" or what ran after / across the response
+
+	cancelled bool // the context of the requesting stream was cancelled by a Cancel fault of the case
 }
 
 // runLeafCase runs the requests of the case through one handler stream and returns every
@@ -1010,7 +1031,10 @@ func runLeafCase(fx *leafFixture, c *leafCase) (*leafResult, error) {
 	mkCtx := func(name string) context.Context {
 		return metadata.NewIncomingContext(context.Background(), metadata.Pairs(constants.RPCMetaKeyLogicNode, name))
 	}
-	rootStream := &leafStream{ctx: mkCtx(rootIndicator), name: rootIndicator, reqs: make(chan *protoCommonV1.TaskRequest), run: r}
+	rootCtx, cancelRoot := context.WithCancel(mkCtx(rootIndicator))
+	defer cancelRoot()
+	r.cancelStream = cancelRoot
+	rootStream := &leafStream{ctx: rootCtx, name: rootIndicator, reqs: make(chan *protoCommonV1.TaskRequest), run: r}
 	peerStream := &leafStream{ctx: mkCtx(peerIndicator), name: peerIndicator, run: r}
 	peerEpoch := fct.Register(peerIndicator, peerStream) // a connected second receiver; it sends no requests
 	handleDone := make(chan struct{})
@@ -1063,7 +1087,7 @@ func runLeafCase(fx *leafFixture, c *leafCase) (*leafResult, error) {
 	}
 	fct.Deregister(peerEpoch, peerIndicator)
 	r.mu.Lock()
-	res := &leafResult{got: map[string][]*protoCommonV1.TaskResponse{}}
+	res := &leafResult{got: map[string][]*protoCommonV1.TaskResponse{}, cancelled: r.cancelFired.Load()}
 	for k, v := range r.got {
 		res.got[k] = append([]*protoCommonV1.TaskResponse(nil), v...)
 	}
@@ -1190,7 +1214,8 @@ func checkLeaf(fx *leafFixture, refs *leafRefs, c *leafCase, res *leafResult, id
 	}
 	for i, r := range c.Reqs {
 		outcomes[i] = "?"
-		fired := res.fired[i] > 0
+		reached := res.fired[i] > 0
+		fired := reached && !r.Fault.Cancel // a failure was raised
 		// who must be answered: a failure before the pipeline (Process returns an error or panics) is
 		// answered by the handler on the requesting stream; metadata requests answer the requesting stream;
 		// a data pipeline answers every receiver of the plan.
@@ -1203,6 +1228,12 @@ func checkLeaf(fx *leafFixture, refs *leafRefs, c *leafCase, res *leafResult, id
 		for _, recv := range []string{rootIndicator, peerIndicator} {
 			got := byReq[i][recv]
 			all = append(all, got...)
+			if res.cancelled && !(reached && r.Fault.Cancel) && recv == peerIndicator && len(got) == 0 &&
+				len(byReq[i][rootIndicator]) == 1 && byReq[i][rootIndicator][0].ErrMsg != "" {
+				// a neighbour's stage cancelled the stream: this request may have been refused by the task pool
+				// with the context error before its pipeline existed (answered on the requesting stream only)
+				continue
+			}
 			if len(got) != want[recv] {
 				bad = append(bad, fmt.Sprintf("request %d (%s): receiver %s got %d responses, want exactly %d (errors: %q)",
 					i, r.canon(), recv, len(got), want[recv], firstErrMsg(got)))
@@ -1210,7 +1241,7 @@ func checkLeaf(fx *leafFixture, refs *leafRefs, c *leafCase, res *leafResult, id
 		}
 		// "when no stage panics, only after every started stage has finished": the answer is the completion
 		// signal of the request
-		if res.late[i] != "" && !(fired && r.Fault.Panic) {
+		if res.late[i] != "" && !(fired && r.Fault.Panic) && !res.cancelled {
 			bad = append(bad, fmt.Sprintf("request %d (%s): answered before its stages had finished although no stage panicked: %s", i, r.canon(), res.late[i]))
 		}
 		if len(all) == 0 {
@@ -1245,6 +1276,9 @@ func checkLeaf(fx *leafFixture, refs *leafRefs, c *leafCase, res *leafResult, id
 				}
 				bad = append(bad, fmt.Sprintf("request %d (%s): answered as a success although %s", i, r.canon(), why))
 			}
+		case res.cancelled:
+			// the task context of the request was done while it ran: it may report that or finish (a
+			// successful answer is still checked for its content below)
 		case legal == "ok":
 			if isErr {
 				bad = append(bad, fmt.Sprintf("request %d (%s): answered with the error %q although nothing failed", i, r.canon(), firstErrMsg(all)))
@@ -1503,6 +1537,11 @@ func genLeafReq(t *rapid.T) *leafReq {
 			r.excludedKnown = true
 		}
 		r.Fault.Shard = rapid.SampledFrom(r.Shards).Draw(t, "fault_shard")
+		if r.Fault.Point != fpLimits && pick(t, "fault_cancel", false, false, true) {
+			r.Fault.Cancel = true
+			r.Fault.Panic = false
+			r.excludedKnown = false
+		}
 		switch r.Fault.Point {
 		case fpFilter, fpRSLoad, fpLoaderLoad:
 			r.Fault.Nth = pick(t, "fault_nth", 0, 0, 1, 2)
@@ -1548,6 +1587,9 @@ func classifyLeaf(c *leafCase, res *leafResult, outcomes []string) (bool, []stri
 			cl = append(cl, "leaf:pre:"+r.Pre)
 		}
 		fired := res != nil && res.fired[i] > 0
+		if res != nil && res.cancelled && !(fired && r.Fault.Cancel) {
+			cl = append(cl, "leaf:neighbour_cancelled_stream:outcome:"+outcomes[i])
+		}
 		if r.excludedKnown {
 			cl = append(cl, "excluded_known:collect-error-answers-early")
 		}
@@ -1557,6 +1599,12 @@ func classifyLeaf(c *leafCase, res *leafResult, outcomes []string) (bool, []stri
 			how := "error"
 			if r.Fault.Panic {
 				how = "panic"
+			}
+			if r.Fault.Cancel {
+				how = "cancel"
+				if fired {
+					cl = append(cl, "leaf:cancel_while_stage_runs:outcome:"+outcomes[i], fmt.Sprintf("leaf:cancel_while_stage_runs:receivers:%d", r.Receivers))
+				}
 			}
 			st := "not_reached"
 			if fired {
